@@ -17,7 +17,7 @@ LIB = [
     ("under_score/baz", "baz", False), ("dash-ed/baz", "baz", False), ("dotted.v3/baz", "baz", False),
     # package names that look like parameter names
     ("z/s", "s", False), ("z/n", "n", False), ("z/err", "err", False), ("z/ctx", "ctx", False),
-    ("z/sync", "sync", False), ("z/mock", "mock", False), ("z/v", "v", False), ("z/fn", "fn", False),
+    ("z/sync", "sync", True), ("z/mock", "mock", False), ("z/v", "v", False), ("z/fn", "fn", False),
     ("z/s1", "s1", False), ("z/id", "id", False), ("z/http", "http", False),
     # distinct plain ones
     ("p/alpha", "alpha", False), ("p/beta", "beta", False), ("p/gamma", "gamma", False),
@@ -166,7 +166,17 @@ class SrcGen:
         t = r.choice(LIB_TYPES)
         if t.startswith("*"):
             return "*" + q + "." + t[1:]
-        if t == "G[int]" and r.random() < 0.4:
+        if t in ("G[int]", "G[string]") and r.random() < 0.6:
+            c = r.random()
+            if c < 0.5:
+                # a type argument from (usually) another package, possibly nested in the same generic
+                rel2, name2, _ = r.choice(libs)
+                q2 = self.qual(MOD + "/" + rel2, name2)
+                arg = q2 + "." + r.choice(["T", "N", "A", "S"])
+                if r.random() < 0.4:
+                    arg = q + ".G[" + arg + "]"
+                pre = r.choice(["", "", "map[" + q + ".N]", "[]", "*"])
+                return pre + q + ".G[" + arg + "]"
             return q + ".G[" + self.typ(0, key=False) + "]"
         return q + "." + t
 
@@ -314,6 +324,29 @@ class SrcGen:
                 self.local_names.add(iname)
                 body.append(self.interface(iname, i, dep, name))
                 ifaces.append(iname)
+            if fi == 0 and r.random() < 0.35:
+                body.append("// LGI is a local generic interface.\ntype LGI[K any, V any] interface{ GM(k K, v V) (K, error) }\n"
+                            "// AGI is an alias of an instance.\ntype AGI = LGI[LN, string]\n"
+                            "// ANI is an alias of a plain interface.\ntype ANI = LI0\n"
+                            "// DGI is a defined type over an instance.\ntype DGI LGI[int, LT]\n")
+                self.local_names.update({"LGI", "AGI", "ANI", "DGI"})
+                ifaces.extend(r.sample(["AGI", "ANI", "DGI", "LGI"], r.choice([1, 2])))
+            if fi == 0 and r.random() < 0.2:
+                body.append("// AL1 and AL2 are aliases of interface literals with a same-named method.\n"
+                            "type AL1 = interface{ Read(p []byte) (int, error) }\n"
+                            "type AL2 = interface {\n\tRead(key string) string\n\tKeys() []string\n}\n"
+                            "// EL1 and EL2 embed interface literals.\n"
+                            "type EL1 interface{ interface{ Do(x int) } }\n"
+                            "type EL2 interface{ interface{ Do(s string) error } }\n")
+                self.local_names.update({"AL1", "AL2", "EL1", "EL2"})
+                ifaces.extend(r.choice([["AL1", "AL2"], ["EL1", "EL2"], ["AL2", "AL1", "EL2"]]))
+            if fi == 0 and r.random() < 0.2:
+                body.append("// LCmp is a generic constraint; FB is constrained by itself through it.\n"
+                            "type LCmp[T any] interface{ Compare(T) int }\n"
+                            "type FB[T LCmp[T]] interface{ Sort(xs []T) []T }\n"
+                            "type FB2[T interface{ Merge(T) T }] interface{ MergeAll(xs ...T) T }\n")
+                self.local_names.update({"LCmp", "FB", "FB2"})
+                ifaces.extend(r.sample(["FB", "FB2"], 1))
             if fi == 0:
                 body.append("type LT struct{ V int }\ntype LN int\ntype LG[K any] struct{ V K }\ntype LA = LT\ntype LS []LT\ntype LI0 interface{ L0() }\ntype LC interface{ ~int | ~int64 }\ntype LMC interface{ Less(LT) bool }\n")
                 if r.random() < 0.2:
@@ -428,13 +461,32 @@ class SrcGen:
         return out
 
 
+def alias_disagreement_case(rnd, name):
+    """Two files of one package disagree about import names: file a uses package P under its own
+    name and Q under an alias; file b calls Q by P's name.  One parameter type mentions P and Q."""
+    cands = [l for l in LIB if not l[2] and l[0] != "dotimp"]
+    (rp, np_, _), (rq, nq, _) = rnd.sample(cands, 2)
+    while nq == np_:
+        (rp, np_, _), (rq, nq, _) = rnd.sample(cands, 2)
+    alias = rnd.choice(["qx", "other", nq + "2"])
+    shape = rnd.choice(["map[%s.N]%s.T", "func(%s.T) %s.T", "map[%s.N][]%s.T", "struct{A %s.T; B %s.T}"])
+    fa = ('package %s\n\nimport (\n\t"%s/%s"\n\t%s "%s/%s"\n)\n\n// IAD has one parameter mentioning two packages.\n'
+          'type IAD interface {\n\tLoad(index %s) error\n\tOther(x %s.T)\n}\n'
+          % (name, MOD, rp, alias, MOD, rq, shape % (np_, alias), alias))
+    fb = ('package %s\n\nimport %s "%s/%s"\n\nvar _ %s.T\n' % (name, np_, MOD, rq, np_))
+    return {"%s/a.go" % name: fa, "%s/b.go" % name: fb}, ["IAD"]
+
+
 def make_cases(rnd, root, n, adversarial=False, prefix="src"):
     """Writes n source packages under root; returns list of dicts {dir, ifaces}."""
     out = []
     for i in range(n):
         g = SrcGen(rnd, adversarial=adversarial)
         name = "%s%d" % (prefix, i)
-        files, ifaces = g.package(name)
+        if rnd.random() < 0.06:
+            files, ifaces = alias_disagreement_case(rnd, name)
+        else:
+            files, ifaces = g.package(name)
         for rel, text in files.items():
             p = os.path.join(root, rel)
             os.makedirs(os.path.dirname(p), exist_ok=True)
